@@ -164,6 +164,7 @@ def C05(prog: Program, run: Run, tier: str) -> None:
     run.add(api.rule_api(prog, {"cog._tifffile", "cog._mpu", "cog._mpu_fs", "cog._shared", "cog._s3"} if tier == "quick" else None), "R-API the writer's imports and attribute references resolve in the installed dask/tifffile/numpy")
     run.add(cog.rule_flow16(prog), "R-FLOW16 tile sizes originate from adjust_blocksize/norm_blocksize whose returns are align_up(.,16); both axes padded with the shared level count")
     run.add(cog.rule_rechunk(prog), "R-GUARDSEQ source rechunked to the layout's chunking unless its whole chunk shape already equals it")
+    run.add(cog.rule_tiles_within_source(prog), "R-GUARDSEQ every source block named from a layout tile index is bounded by the source's chunk grid (the layout is padded, the source is not)")
     run.add(cog.rule_order(prog), "R-ORDER the bag list handed to the multi-part writer is the reversed level list (overviews first)")
     run.add([i for i in cog.rule_mpu(prog) if "STRIDE" in i.construct], "R-MPU STRIDE part-id ranges of chunks and sub-streams neither overlap nor leave gaps")
     run.add(cog.rule_swallow(prog), "R-SWALLOW (informational) encoder errors returned as empty tiles")
@@ -204,6 +205,10 @@ def C09(prog: Program, run: Run, tier: str) -> None:
     run.add(forward.rule_option_keys(prog), "R-FORWARD geobox options packed/extracted/accepted under the same names; kw split between geobox and warp options")
     run.add(axis.rule_axis(prog, {"_xr_interop"}), AXIS_DESC)
     run.add(_fwd(prog, {"_xr_interop"}), FWD_DESC)
+    # the accessor's cached geobox travels through pickle with the array: the geobox classes must survive it
+    run.add([i for i in valueobj.rule_valueobj(prog, ["geobox:GeoBox", "gcp:GCPGeoBox", "gcp:GCPMapping"]) if any(k in i.construct for k in ("PICKLEKEYS", "REDUCEARGS", "EQIDENT"))]
+            + _only(valueobj.rule_pickle_state(prog, {"geobox", "gcp", "math"}), "geobox:", "gcp:", "math:Poly2d"),
+            "R-VALUEOBJ/R-PICKLE a GeoBox / GCPGeoBox cached by the accessor survives pickling: custom pickle hooks pass every constructor parameter that feeds __eq__, no closures in state, no identity comparison")
     run.floor("R-KEYS|", 25)
     run.floor("R-SIBLING|", 9)
 
